@@ -110,6 +110,8 @@ func (g *gen) printSortFunc(typ *types.Slice) error {
 	switch ttyp := etyp.Underlying().(type) {
 	case *types.Basic:
 		switch ttyp.Kind() {
+		case types.UnsafePointer:
+			return fmt.Errorf("unsupported compare type: %s", g.TypeString(typ))
 		case types.Complex64, types.Complex128, types.Bool:
 			p.P(g.sortPkg() + ".Slice(list, func(i, j int) bool { return " + g.compare.GetFuncName(etyp, etyp) + "(list[i], list[j]) < 0 })")
 		default:
